@@ -112,7 +112,25 @@ def build():
                 unreg_wraps.append("%s::%s(%s)" % (f, fn, arg))
         for m in re.finditer(r'\bmem::forget\s*\(|\bManuallyDrop\b|\bBox::leak\s*\(|\.into_raw\s*\(', text):
             forget.append("%s::%s" % (f, enclosing_fn(text, m.start())))
+    # descriptors enter the process only where their wrapping is proved: every recv_with_fds outside recv_into_iovec passes an
+    # EMPTY descriptor buffer (`&mut []`: the kernel then installs nothing)
+    bad_recv = []
+    for f in FILES:
+        try:
+            text = u.rw.strip_comments(non_test(Source(f).src))
+        except Exception:
+            continue
+        for m in re.finditer(r'\brecv_with_fds\s*\(', text):
+            if re.search(r'\bfn\s+$', text[:m.start()]):
+                continue
+            fn = enclosing_fn(text, m.start())
+            args = call_arg(text, m.end() - 1)
+            second = args.split(",", 1)[1] if "," in args else ""
+            if fn != "recv_into_iovec" and second != "&mut[]":
+                bad_recv.append("%s::%s(%s)" % (f, fn, second))
     u.functions = []
+    u.scan(["C09"], "descriptors_enter_only_through_recv_into_iovec", not bad_recv,
+           "every recv_with_fds outside Endpoint::recv_into_iovec passes an empty descriptor buffer: raw descriptors are installed only where each is wrapped in a File (unit chunk, [C09:wrap-each-once]); offending: %s" % (bad_recv or "none"))
     u.scan(["C09"], "every_into_raw_fd_is_rewrapped", not bad_into,
            "every `.into_raw_fd()` in non-test code is re-wrapped by a `from_raw_fd(..)` (directly, or bound to a name that is re-wrapped exactly once in the same function): the descriptor never ends up unowned; offending: %s" % (sorted(set(bad_into)) or "none"))
     u.scan(["C09"], "raw_descriptor_wraps_are_the_registered_ones", not unreg_wraps,
